@@ -482,6 +482,10 @@ fn sim_root(scn: Arc<Scn>, col: Arc<Mutex<Collected>>) {
             }
         }
     }
+    if scn.early {
+        // a slow start (think of a large access-list file): the thread running run() stalls for 3 ms at one of its first seam calls
+        plan.stall_at.push(("tracker-run".into(), 1 + scn.sched_seed % 10, 3_000_000));
+    }
     fault::set_plan(plan);
     sudp::set_send_faults(send_faults);
     sudp::set_spurious_poll_permille(scn.spurious_poll_permille);
